@@ -17,6 +17,8 @@ package receive
 import (
 	"context"
 	"fmt"
+	"os"
+	"runtime"
 	"strings"
 	"testing"
 
@@ -79,6 +81,8 @@ type c24Req struct {
 	state   int
 	entered bool
 	refused bool
+	// wasQueued: the request was seen waiting at the full gate
+	wasQueued bool
 	// releasing: the check has started to let this request's writes answer
 	releasing bool
 	parked    []*vfDest
@@ -112,7 +116,12 @@ func c24NewRun(tb testing.TB, n, rf, nodes int, algo HashringAlgorithm) *c24Run 
 	return &c24Run{tb: tb, hz: hz, n: n, rf: rf, gate: g}
 }
 
-func (r *c24Run) logf(format string, a ...any) { r.log = append(r.log, fmt.Sprintf(format, a...)) }
+func (r *c24Run) logf(format string, a ...any) {
+	r.log = append(r.log, fmt.Sprintf(format, a...))
+	if os.Getenv("VERIF_C24_DEBUG") != "" {
+		fmt.Printf("C24DBG %p held=%d %s\n", r, r.held, fmt.Sprintf(format, a...))
+	}
+}
 
 func (r *c24Run) inside() []int {
 	var in []int
@@ -168,12 +177,11 @@ func (r *c24Run) apply(e c24Ev) {
 	case "admitted":
 		r.held++
 		q := r.reqs[e.id]
-		if q.state == c24Queued {
+		if q.wasQueued {
 			r.sawQueuedAdmitted = true
 		}
-		q.state = c24Admitted
-		if len(q.parked) >= r.rf {
-			q.state = c24InFlight
+		if q.state != c24InFlight {
+			q.state = c24Admitted
 		}
 		r.logf("   request %d passed the gate (gate holds %d/%d)", e.id, r.held, r.n)
 	case "refused":
@@ -207,7 +215,8 @@ func (r *c24Run) applyPark(d *vfDest) {
 	}
 	q := r.reqs[id]
 	q.parked = append(q.parked, d)
-	if len(q.parked) >= r.rf && q.state == c24Admitted {
+	if len(q.parked) >= r.rf && q.state != c24Returned {
+		// also when it never passed the gate: all its writes sit in the peers
 		q.state = c24InFlight
 	}
 	r.logf("   request %d entered the write path (%s)", id, d)
@@ -226,21 +235,40 @@ func (r *c24Run) pump(cond func() bool) {
 	}
 }
 
-// quiesce: while the model says a slot is free and requests are queued, one of them must get in.
-func (r *c24Run) quiesce() {
-	for r.viol == "" && r.held < r.n && len(r.queued()) > 0 {
-		before := len(r.queued())
-		r.pump(func() bool { return len(r.queued()) < before })
-		// the admitted request(s) must reach the write path
-		r.pump(func() bool {
-			for _, q := range r.reqs {
-				if q.state == c24Admitted {
-					return false
-				}
+// spin gives other goroutines a bounded chance to make progress and folds whatever events exist by
+// then; used only where the model expects "nothing happens" (a request that should wait at the full
+// gate), so that a request that gets in anyway is noticed at once. Costs sensitivity at worst.
+func (r *c24Run) spin(until func() bool) {
+	for i := 0; i < 400 && !until(); i++ {
+		for more := true; more; {
+			select {
+			case e := <-r.gate.ev:
+				r.apply(e)
+			case d := <-r.hz.peers.parkEv:
+				r.applyPark(d)
+			default:
+				more = false
 			}
-			return true
-		})
+		}
+		runtime.Gosched()
 	}
+}
+
+// quiesce waits for the stable state the model demands: every request that passed the gate has reached
+// the peers, and either the gate is full or nobody waits at it (while a slot is free and requests wait,
+// one of them must get in). The condition is re-evaluated after every event.
+func (r *c24Run) quiesce() {
+	r.pump(func() bool {
+		if r.viol != "" {
+			return true
+		}
+		for _, q := range r.reqs {
+			if q.state == c24Admitted {
+				return false
+			}
+		}
+		return r.held >= r.n || len(r.queued()) == 0
+	})
 }
 
 func (r *c24Run) start(kind string, preCancelled bool) {
@@ -271,11 +299,15 @@ func (r *c24Run) start(kind string, preCancelled bool) {
 	go func() { <-q.done; r.gate.ev <- c24Ev{id, "returned"} }()
 
 	// stable point: reached the gate ...
-	r.pump(func() bool { return q.entered || q.state == c24Returned })
+	r.pump(func() bool { return q.entered || q.state == c24Returned || q.state == c24InFlight })
 	if q.state == c24Returned {
 		return
 	}
 	switch {
+	case q.state == c24InFlight:
+		// reached the peers (possibly without ever asking the gate)
+	case q.state == c24Admitted:
+		r.pump(func() bool { return q.state != c24Admitted })
 	case preCancelled:
 		// ... Start fails (always when the gate is full, by chance when it is free) or it gets in
 		r.pump(func() bool { return q.state == c24Returned || q.state == c24InFlight })
@@ -287,8 +319,14 @@ func (r *c24Run) start(kind string, preCancelled bool) {
 		if q.state == c24Started {
 			q.state = c24Queued
 		}
-		r.sawQueued = true
-		r.logf("   request %d waits at the full gate", id)
+		r.spin(func() bool { return q.state != c24Queued })
+		if q.state == c24Queued {
+			r.sawQueued = true
+			q.wasQueued = true
+			r.logf("   request %d waits at the full gate", id)
+		} else if q.state == c24Admitted {
+			r.pump(func() bool { return q.state != c24Admitted })
+		}
 	}
 	r.quiesce()
 }
@@ -299,7 +337,7 @@ func (r *c24Run) cancelReq(q *c24Req) {
 	q.cancel()
 	if wasQueued {
 		r.sawCancelQueued = true
-		r.pump(func() bool { return q.state == c24Returned })
+		r.pump(func() bool { return q.state == c24Returned || q.state == c24InFlight })
 	} else {
 		r.sawCancelInFlight = true
 	}
